@@ -345,6 +345,34 @@ theorem idgen_succ (n : Nat) :
   rw [idgen_closed_form, idgen_closed_form]
   split <;> omega
 
+/-- Request ids of one session do not repeat within a full cycle: two of any `2^53` consecutive
+    ids issued by a generator are different (so a reply can be matched to its request by id as
+    long as fewer than `2^53` requests are outstanding). -/
+theorem idgen_no_repeat (i j : Nat) (hij : i < j) (hj : j < i + 2 ^ 53) : idGenSeq i ≠ idGenSeq j := by
+  intro h
+  have h' := congrArg UInt64.toNat h
+  rw [idgen_closed_form, idgen_closed_form] at h'
+  omega
+
+/-- ... and the cycle is exact: the id issued `2^53` calls later is the same one again. -/
+theorem idgen_period (n : Nat) : idGenSeq (n + 2 ^ 53) = idGenSeq n := by
+  apply UInt64.toNat_inj.mp
+  rw [idgen_closed_form, idgen_closed_form]
+  omega
+
+/-- Two issued ids are equal exactly when their positions agree modulo `2^53`. -/
+theorem idgen_eq_iff (i j : Nat) : idGenSeq i = idGenSeq j ↔ i % 2 ^ 53 = j % 2 ^ 53 := by
+  constructor
+  · intro h
+    have h' := congrArg UInt64.toNat h
+    rw [idgen_closed_form, idgen_closed_form] at h'
+    omega
+  · intro h
+    apply UInt64.toNat_inj.mp
+    rw [idgen_closed_form, idgen_closed_form, h]
+
+example : idGenSeq 0 ≠ idGenSeq 1 := idgen_no_repeat 0 1 (by decide) (by decide)
+
 /-! ## Router-wide random ids (`GlobalID`, regenerated as `globalID` over the drawn value) -/
 
 theorem globalid_bound_is_maxID : globalIDRandBound = MaxID ∧ MaxID = 2 ^ 53 := by decide
